@@ -202,6 +202,29 @@ Theorem C10_dstream_progress_all_histories : forall (H : Type) (b_init : H) (b_r
 Proof. exact dstream_progress_from_new. Qed.
 Print Assumptions C10_dstream_progress_all_histories.
 
+(* round 3: the same without the buffered-output hypothesis and for any output buffer {dst, osize, opos}: buffered mode or
+   ZSTD_d_stableOutBuffer (the block is decoded straight into the caller's buffer, no zdss_flush stage; a caller that comes
+   back with another buffer is refused with dstBuffer_wrong, a failure), room = osize - opos *)
+Theorem C10_dstream_progress_any_mode : forall (H : Type) (b_init : H) (b_raw : H -> bytes -> H) (b_rle : H -> N -> N -> H)
+    (b_cblock : N -> N -> H -> bytes -> res (H * bytes)) (b_hash : bytes -> N) (P : dparams) (z : zstate H) (inp : bytes) (osize opos : N),
+  DInv H P z ->
+  let o := dstep H b_init b_raw b_rle b_cblock b_hash P z inp osize opos in
+  match o_ret o with
+  | MErr _ => True
+  | MOk _ => DInv H P (o_z o) /\ (inp <> [] -> opos < osize -> 0 < o_consumed o \/ o_out o <> [])
+  end.
+Proof. exact dstream_call_gen. Qed.
+Print Assumptions C10_dstream_progress_any_mode.
+
+(* ... hence for every call history (any segmentation of any byte string, any output buffers, either output mode) *)
+Theorem C10_dstream_progress_all_histories_any_mode : forall (H : Type) (b_init : H) (b_raw : H -> bytes -> H) (b_rle : H -> N -> N -> H)
+    (b_cblock : N -> N -> H -> bytes -> res (H * bytes)) (b_hash : bytes -> N) (P : dparams) (src : bytes) (calls : list gcall),
+  all_progress_gen H b_init b_raw b_rle b_cblock b_hash P (z_new H b_init P) src calls.
+Proof. exact dstream_progress_gen_from_new. Qed.
+Print Assumptions C10_dstream_progress_all_histories_any_mode.
+(* non-vacuity in stable-output mode: C10DProgress.ex_stable_out (two successful calls on the one buffer; a call that comes
+   back with another position or size is refused) *)
+
 (* ---------------- recommended buffer sizes (regenerated constants) ---------------- *)
 From ZV.Gen Require Import Gen_Stream.
 From ZV.Stream Require Import C10Sizes.
@@ -387,3 +410,53 @@ Theorem C10_api_hint_bounds : forall (CS : Type) (cs_begin : CS -> fconf -> N ->
   k_stage (a_k a') <> KInit -> 1 <= k_hint (a_k a') <= k_blockSize (a_k a') + 1.
 Proof. exact api_hint_bounds. Qed.
 Print Assumptions C10_api_hint_bounds.
+
+(* ---------------- round 3: ZSTD_checkBufferStability never refuses a caller that keeps its buffer (coq/Stream/C10Stab.v) ---------------- *)
+From ZV.Stream Require Import C10Stab C10StabProofs.
+
+(* the layer of C10Stab.v adds the recorded expectedInBuffer.pos and the check to the API model and nothing else: a step
+   that is not refused is the step of C10Api.v *)
+Theorem C10_stability_layer_conservative : forall (CS : Type) (cs_begin : CS -> fconf -> N -> CS)
+    (compress_chunk : CS -> bytes -> bool -> CS * bytes) (v : checkver) (kv : keepver) (P : kparams) (X : bytes) (s : sstate CS) (op : aop),
+  so_refused (sstep CS cs_begin compress_chunk v kv P X s op) = false ->
+  so_o (sstep CS cs_begin compress_chunk v kv P X s op) = astep CS cs_begin compress_chunk P X (s_a s) op /\
+  (forall r, ao_ret (astep CS cs_begin compress_chunk P X (s_a s) op) = Some r ->
+             s_a (so_s (sstep CS cs_begin compress_chunk v kv P X s op)) = ao_a (astep CS cs_begin compress_chunk P X (s_a s) op)).
+Proof. exact sstep_astep. Qed.
+Print Assumptions C10_stability_layer_conservative.
+
+(* every history of ZSTD_compressStream2 / ZSTD_compressStream / ZSTD_flushStream / ZSTD_endStream calls over one input
+   array (stable or buffered input, any sizes, capacities, directives), from any state that satisfies the API invariant and
+   in which the check accepts the caller's position: no call is refused with stabilityCondition_notRespected, and the
+   check still accepts the caller's position afterwards (i.e. in a frame in progress whose applied mode is stable, once a
+   real buffer is recorded, expectedInBuffer.pos is the position the caller holds) *)
+Theorem C10_stable_caller_never_refused : forall (CS : Type) (cs_begin : CS -> fconf -> N -> CS)
+    (compress_chunk : CS -> bytes -> bool -> CS * bytes) (P : kparams) (X : bytes) (ops : list aop) (s : sstate CS) (em : bytes)
+    (dones : list (CS * list (bytes * bool))) (cs0 : CS) (chunks : list (bytes * bool)) (s' : sstate CS) (b : bool),
+  AInv CS cs_begin compress_chunk P X (s_a s) em dones cs0 chunks -> check_refuses CheckNow s = false -> ops_ok ops ->
+  srun CS cs_begin compress_chunk CheckNow KeepNow P X s ops = Some (s', b) -> b = false /\ check_refuses CheckNow s' = false.
+Proof. exact stable_caller_never_refused. Qed.
+Print Assumptions C10_stable_caller_never_refused.
+
+Theorem C10_stable_caller_never_refused_from_new : forall (CS : Type) (cs_begin : CS -> fconf -> N -> CS)
+    (compress_chunk : CS -> bytes -> bool -> CS * bytes) (P : kparams) (X : bytes) (cs : CS) (ops : list aop) (s' : sstate CS) (b : bool),
+  ops_ok ops -> srun CS cs_begin compress_chunk CheckNow KeepNow P X (s_new cs) ops = Some (s', b) -> b = false.
+Proof. exact stable_caller_never_refused_from_new. Qed.
+Print Assumptions C10_stable_caller_never_refused_from_new.
+
+(* the two repairs that make it true, on the store compressor of the examples above (stable input, blocks of 4 bytes);
+   the tuple is (expectedInBuffer.pos, position of the caller, recorded buffer is {NULL,0,0}, some call was refused).
+   9a6b24a: ZSTD_flushStream starts the frame, then the caller shows its buffer - refused by the check without noBufferYet;
+   62dea3d: 10 bytes deferred, ZSTD_flushStream through 3 bytes of room goes back over them and compresses one block:
+   without "expectedInBuffer.pos = callerPos" the recorded position stays at 4 and the caller's next call is refused *)
+Definition ex_srun (v : checkver) (kv : keepver) (ops : list aop) :=
+  match srun unit ex_begin ex_chunk v kv exP exX (s_new tt) ops with
+  | Some (s, b) => Some (s_epos s, a_pos (s_a s), a_null (s_a s), b)
+  | None => None
+  end.
+Example ex_stability :
+  ex_srun CheckNow KeepNow [OFlush 100 exfc; OCall 4 100 DirContinue exfc] = Some (4, 4, false, false) /\
+  ex_srun CheckPre9a6b24a KeepNow [OFlush 100 exfc; OCall 4 100 DirContinue exfc] = Some (0, 0, true, true) /\
+  ex_srun CheckNow KeepNow [OCall 10 100 DirContinue exfc; OFlush 3 exfc; OCall 2 100 DirContinue exfc] = Some (12, 12, false, false) /\
+  ex_srun CheckNow KeepNoPos [OCall 10 100 DirContinue exfc; OFlush 3 exfc; OCall 2 100 DirContinue exfc] = Some (4, 10, false, true).
+Proof. vm_compute. repeat split. Qed.
